@@ -157,7 +157,10 @@ func (i *interpreter) runInit(pkg *ssa.Package) {
 
 // globalOverrides gives values for init-written globals of packages whose
 // initialisers are never interpreted.
-var globalOverrides = map[string]func(i *interpreter) value{}
+var globalOverrides = map[string]func(i *interpreter) value{
+	"internal/bytealg.MaxLen":        func(i *interpreter) value { return int(63) },
+	"internal/bytealg.MaxBruteForce": func(i *interpreter) value { return int(64) },
+}
 
 // ------------------------------------------------------------------ running
 
@@ -237,11 +240,23 @@ func Explore(sh *Shared, fn *ssa.Function, cfg Config) *HarnessResult {
 			return
 		}
 		defer solver.Close()
+		if lf := os.Getenv("GOSYM_SOLVER_LOG"); lf != "" && id == 0 {
+			if f, err := os.Create(lf); err == nil {
+				solver.Log = f
+				defer f.Close()
+			}
+		}
 		var solver2 *sym.Solver
 		if cfg.CrossCheck != "" {
 			solver2, err = sym.StartSolver(cfg.CrossCheck, cfg.TimeoutMs)
 			if err == nil {
 				defer solver2.Close()
+				if lf := os.Getenv("GOSYM_SOLVER2_LOG"); lf != "" && id == 0 {
+					if f, err := os.Create(lf); err == nil {
+						solver2.Log = f
+						defer f.Close()
+					}
+				}
 			}
 		}
 		for {
@@ -260,7 +275,12 @@ func Explore(sh *Shared, fn *ssa.Function, cfg Config) *HarnessResult {
 			active++
 			mu.Unlock()
 
-			pr := RunPath(sh, fn, it.prefix, solver, solver2, cfg, nil)
+			pr := runPathEmit(sh, fn, it.prefix, solver, solver2, cfg, nil, func(w []Decision) {
+				mu.Lock()
+				queue = append(queue, workItem{w})
+				cond.Signal()
+				mu.Unlock()
+			})
 
 			mu.Lock()
 			active--
@@ -329,6 +349,9 @@ func Explore(sh *Shared, fn *ssa.Function, cfg Config) *HarnessResult {
 		}
 		mu.Lock()
 		res.SolverTime += solver.Time
+		if os.Getenv("GOSYM_TIMING") != "" {
+			fmt.Fprintf(os.Stderr, "worker %d: check %v get-value %v queries %d\n", id, solver.Time, solver.GetTime, solver.Queries)
+		}
 		if solver2 != nil {
 			res.SolverTime += solver2.Time
 		}
@@ -356,8 +379,13 @@ func statusClass(s string) string {
 // RunPath executes fn once following prefix. If concrete != nil the run is a
 // concrete replay driven by that model (no solver).
 func RunPath(sh *Shared, fn *ssa.Function, prefix []Decision, solver, solver2 *sym.Solver, cfg Config, concrete map[string]uint64) (pr *PathResult) {
+	return runPathEmit(sh, fn, prefix, solver, solver2, cfg, concrete, nil)
+}
+
+func runPathEmit(sh *Shared, fn *ssa.Function, prefix []Decision, solver, solver2 *sym.Solver, cfg Config, concrete map[string]uint64, emit func([]Decision)) (pr *PathResult) {
 	p := newPathCtx(prefix, solver, solver2, fn.Name())
 	p.concrete = concrete
+	p.emit = emit
 	if cfg.MaxSteps > 0 {
 		p.maxSteps = cfg.MaxSteps
 	}
